@@ -3,6 +3,7 @@ package checks
 import (
 	"fmt"
 	dtpb "github.com/google/fhir/go/proto/google/fhir/proto/r4/core/datatypes_go_proto"
+	ppb "github.com/google/fhir/go/proto/google/fhir/proto/r4/core/resources/patient_go_proto"
 	"strings"
 
 	"github.com/verily-src/fhirpath-go/fhirpath"
@@ -296,6 +297,39 @@ func init() {
 					if got != want {
 						r.Fail(fmt.Sprintf("not|%s(%s)|got=%s|want=%s", a.Val, srcKind(a), normGot(got), want), core.W{"src": src, "got": res.String(), "want": want})
 					}
+					// chains of not(): each step is singleton evaluation again (a non-Boolean singleton is true, more than one item an
+					// error), so two steps are the identity on true / false / empty only, and the result is a System Boolean
+					for n, chain := range []string{".not().not()", ".not().not().not()"} {
+						for _, form := range []string{"(" + a.Src + ")" + chain, a.Src + chain} {
+							if strings.ContainsAny(a.Src, " ") && !strings.HasPrefix(form, "(") {
+								continue // an operator expression needs its parentheses
+							}
+							res := lib.Run(form, input(), c06Env())
+							r.Eval()
+							got := obs3(res)
+							want := "error"
+							if a.Val != tMulti {
+								v := a.Val
+								if a.NonBoo {
+									v = tT
+								}
+								for k := 0; k < n+2; k++ {
+									v = refNot(v)
+								}
+								want = v.String()
+							}
+							r.State("not-chain|" + a.Val.String())
+							r.Nontrivial(form, got)
+							ok := got == want
+							if ok && res.OK() && len(res.Coll) == 1 {
+								_, isB := res.Coll[0].(system.Boolean)
+								ok = isB
+							}
+							if !ok {
+								r.Fail(fmt.Sprintf("not-chain|%d|%s(%s)|got=%s|want=%s", n+2, a.Val, srcKind(a), normGot(got), want), core.W{"src": form, "got": res.String(), "want": want})
+							}
+						}
+					}
 				}},
 				{Name: "criteria", N: len(forms), Note: "each form as criterion of where/exists/all/iif and through EvaluateAsBool", Run: func(i int, r *core.Rec) {
 					a := forms[i]
@@ -400,6 +434,42 @@ func init() {
 					r.Nontrivial("asbool", a.Src, got)
 					if got != want {
 						r.Fail(fmt.Sprintf("asbool|%s(%s)|got=%s|want=%s", a.Val, srcKind(a), got, want), core.W{"src": a.Src, "got": got, "want": want})
+					}
+				}},
+				{Name: "criteria-by-position", N: 1, Note: "collections in which the criterion is a single value for some items and several values for another, in every order (2 and 3 names): where / exists / all fail whichever position the offending item has; exists(p) and where(p).exists() agree", Run: func(_ int, r *core.Rec) {
+					one := func(f string, g ...string) *dtpb.HumanName {
+						n := &dtpb.HumanName{Family: fhir.String(f)}
+						for _, x := range g {
+							n.Given = append(n.Given, fhir.String(x))
+						}
+						return n
+					}
+					names := []*dtpb.HumanName{one("Chu", "Ada"), one("Lee", "Bea", "Cy"), one("Ono")}
+					perms := [][]int{{0, 1}, {1, 0}, {0, 1, 2}, {1, 0, 2}, {2, 0, 1}, {0, 2, 1}, {2, 1, 0}, {1, 2, 0}, {0, 2}, {2, 0}}
+					for _, pm := range perms {
+						p := &ppb.Patient{Id: fhir.ID("p")}
+						multi := false
+						for _, k := range pm {
+							p.Name = append(p.Name, names[k])
+							multi = multi || k == 1
+						}
+						for _, crit := range []string{"given", "given.exists() and given", "given.select($this.exists())", "iif(family = 'Chu', true, given)", "given or false"} {
+							run := func(src string) string {
+								res := lib.Run(src, []fhir.Resource{p}, nil)
+								r.Eval()
+								return obs3(res)
+							}
+							wh, ex, whex, al := run("Patient.name.where("+crit+").count()"), run("Patient.name.exists("+crit+")"), run("Patient.name.where("+crit+").exists()"), run("Patient.name.all("+crit+")")
+							r.State(fmt.Sprintf("criteria-by-position|multi=%v", multi))
+							r.Nontrivial(fmt.Sprint(pm), crit, wh, ex, al)
+							w := core.W{"order_of_names": fmt.Sprint(pm), "criterion": crit, "where(p).count()": wh, "exists(p)": ex, "where(p).exists()": whex, "all(p)": al}
+							if ex != whex {
+								r.Fail("criteria-by-position|exists(p)!=where(p).exists()|"+normGot(ex)+"-vs-"+normGot(whex), w)
+							}
+							if multi && crit != "iif(family = 'Chu', true, given)" && (wh != "error" || whex != "error") {
+								r.Fail("criteria-by-position|multi-item-criterion-accepted-by-where", w)
+							}
+						}
 					}
 				}},
 				{Name: "laws", N: len(forms), Note: "commutativity, De Morgan, implies = not-or on every ordered pair, on the implementation's own outputs", Run: func(i int, r *core.Rec) {
